@@ -631,6 +631,13 @@ fn trace_line_inner(c: &Case) -> String {
     verif::trace_start();
     let res = c.run_on(&mut g);
     let recs = verif::trace_take();
+    // object level: once the generator is reset, none of the cells the run created may still be alive
+    let alive_after_reset = if graph_on {
+        g.reset();
+        Some(verif::graph_alive())
+    } else {
+        None
+    };
     verif::graph_stop();
     let mut valids: Vec<String> = Vec::new();
     let mut pending_valid: Option<String> = None;
@@ -721,7 +728,12 @@ fn trace_line_inner(c: &Case) -> String {
         Err(e) => e,
     };
     let graph = if graph_on {
-        format!(" graph={} graphfinal={}", if graph_digs.is_empty() { "-".to_string() } else { graph_digs.join(",") }, graph_final)
+        format!(
+            " graph={} graphfinal={} alive_after_reset={}",
+            if graph_digs.is_empty() { "-".to_string() } else { graph_digs.join(",") },
+            graph_final,
+            alive_after_reset.unwrap_or(0)
+        )
     } else {
         String::new()
     };
